@@ -454,6 +454,9 @@ var vpTemplates = []string{
 	/* 39 */ "local \x01 = function(\x02, ...)\n local \x03 = ...\n return \x03, \x02\nend\ng = \x01\n",
 	// declarations inside elseif branches (also inside a closure written there)
 	/* 40 */ "local \x01 = 0\nif k then\n g = \x01\nelseif j then\n local \x02 = 1\n g = \x02\n local f = function(\x03) return \x03 + \x02 end\nelseif i then\n local \x04 = 2\n g = \x04\nelse\n g = \x01\nend\n",
+	// call chains with one callback in the prefix expression and another in the arguments
+	/* 41 */ "local \x03 = 0\nlocal r = o:map(function(\x01)\n return \x01 + \x03\nend):filter(function(\x02)\n return \x02 + \x03\nend)\n",
+	/* 42 */ "local s = mk(function(\x01)\n local \x02 = \x01\n return \x02\nend)(function(\x03)\n return \x03\nend)\n",
 }
 
 // vpInstantiate fills the holes of template t with symbolic names; tag prefixes the variable names.
